@@ -27,7 +27,8 @@ RULE = ("name and base built from 0-3 segments out of {a, b, x.y, .h, .., ., '',
         "from the constructor's (climbing, absolute, empty); 40 % of the histories run inside `with openFiler(...)` and "
         "leave the block normally or by an exception (the exit is one more observed call); histories also wrap the Filer "
         "in a FilerDoer run by a real Doist (injected temp None/True/False, Filer opened or closed beforehand, normal end "
-        "or forced exit at the time limit; enter and exit observed separately); .temp is observed after every call, snapshotting after every call (the walk starts 6 directories "
+        "or forced exit at the time limit; enter and exit observed separately; close / reopen / remake calls on the filer "
+        "between enter and exit; two doers sharing one filer); .temp is observed after every call, snapshotting after every call (the walk starts 6 directories "
         "above the sandbox root, so escapes show up as ../ paths); thorough enumerates all 16 flag sets x all name/base pairs of <= 2 segments; non-trivial "
         "= a dotted segment ('.', '..' or '...'), or temp with filed, extensioned or clean, or a history of >= 2 calls or "
         "with a clearing temp flip")
@@ -228,6 +229,16 @@ def directed_doers():
                     out.append(hist(c, ("doer", inj, forced)))                        # opened beforehand
                     out.append(hist(c, (C, False), ("doer", inj, forced)))            # closed beforehand
             out.append(hist(c, ("doer", not temp, False), ("doer", None, True), (C, True)))
+            # calls on the filer between the doer's enter and exit, and two doers sharing the filer
+            for forced in (False, True):
+                out.append(hist(c, ("doer", None, forced, [[C, False]])))                 # seeded C29-7: plain close() in between
+                out.append(hist(c, ("doer", True, forced, [[C, False]])))
+                out.append(hist(c, (C, False), ("doer", True, forced, [[C, False]], 2)))
+                out.append(hist(c, ("doer", None, forced, [[C, True]])))
+                out.append(hist(c, ("doer", None, forced, [[R, not temp, None, True, False, False], [C, False]])))
+                out.append(hist(c, ("doer", None, forced, [["remake", "y", "c", True, False, filed, ext, "text"], [C, False]], 2)))
+                out.append(hist(c, ("doer", None, forced, [], 2)))
+                out.append(hist(c, (C, False), ("doer", not temp, forced, [[R, None, None, False, True, False]], 2)))
             out.append(hist(c, (C, True), ("doer", not temp, False), (R, None, None, False, True, False), ("doer", temp, True)))
     return out
 
@@ -238,7 +249,17 @@ def random_history(rng):
     hops = []
     for _ in range(rng.choice([1, 2, 2, 3, 4, 5])):
         if rng.random() < 0.2:
-            hops.append(["doer", rng.choice([None, True, False]), rng.random() < 0.5])
+            inner = []
+            for _ in range(rng.choice([0, 0, 1, 1, 2])):
+                r = rng.random()
+                if r < 0.5:
+                    inner.append(["close", rng.random() < 0.3])
+                elif r < 0.8:
+                    inner.append(["reopen", rng.choice([None, None, True, False]), None, rng.random() < 0.5,
+                                  rng.random() < 0.3, False])
+                else:
+                    inner.append(rand_remake(rng))
+            hops.append(["doer", rng.choice([None, True, False]), rng.random() < 0.5, inner, rng.choice([1, 1, 2])])
         elif rng.random() < 0.3:
             hops.append(rand_remake(rng))
         elif rng.random() < 0.7:
@@ -340,12 +361,33 @@ def run_impl(case):
             obs["hops"].append({"res": r, "path": _relpath(filer.path, root, tmap), "temp": bool(filer.temp),
                                 "snap": _snapshot(root, tmap)})
 
-        def run_doer(filer, inj, forced):
-            """a FilerDoer around the filer, run by a real Doist to a normal end or a forced exit (time limit);
-            enter and exit are observed separately; returns True when either raised"""
+        def do_call(filer, hop):
+            """one plain call on the filer; returns True when it raised (a rejected remake() changes nothing)"""
+            try:
+                if hop[0] == "close":
+                    filer.close(clear=hop[1])
+                elif hop[0] == "remake":
+                    _, nm, bs, temp, clean, filed, ext, fext = hop
+                    _, fl = filer.remake(name=nm, base=bs, temp=temp, headDirPath=os.path.join(root, "head"),
+                                         clean=clean, filed=filed, extensioned=ext, fext=fext)
+                    if fl is not None:
+                        fl.close()
+                else:
+                    _, temp, fext, clear, reuse, clean = hop
+                    filer.reopen(temp=temp, fext=fext, clear=clear, reuse=reuse, clean=clean)
+                r = ["ok", None]
+            except Exception as ex:
+                r = ["exc", exn_kind(ex)]
+            observe(filer, hop, r)
+            return r[0] != "ok" and hop[0] != "remake"
+
+        def run_doer(filer, inj, forced, inner=(), shared=1):
+            """`shared` FilerDoers around the one filer, run by a real Doist to a normal end or a forced exit (time
+            limit); every enter and exit is observed separately; the `inner` calls are made on the filer between the
+            enters and the exits (in the first doer's first recur); returns True when anything raised"""
             from hio.base import doing
             from hio.base.filing import FilerDoer
-            bad = []
+            bad, pending = [], list(inner)
 
             class ObservedDoer(FilerDoer):
                 def enter(self, *, temp=None):
@@ -359,6 +401,9 @@ def run_impl(case):
                         raise
 
                 def recur(self, tyme):
+                    while pending and not bad:
+                        if do_call(self.filer, pending.pop(0)):
+                            bad.append(1)
                     return not forced
 
                 def exit(self):
@@ -372,7 +417,7 @@ def run_impl(case):
 
             doist = doing.Doist(real=False, tock=0.125, limit=0.5 if forced else None)
             try:
-                doist.do(doers=[ObservedDoer(filer=filer)], temp=inj)
+                doist.do(doers=[ObservedDoer(filer=filer) for _ in range(shared)], temp=inj)
             except Exception:
                 if not bad:
                     raise
@@ -383,26 +428,10 @@ def run_impl(case):
             obs["hops"], obs["hops_run"] = [], []
             for hop in case.get("hops") or []:
                 if hop[0] == "doer":
-                    if run_doer(filer, hop[1], hop[2]):
+                    if run_doer(filer, hop[1], hop[2], hop[3] if len(hop) > 3 else (), hop[4] if len(hop) > 4 else 1):
                         return True
                     continue
-                try:
-                    if hop[0] == "close":
-                        filer.close(clear=hop[1])
-                    elif hop[0] == "remake":
-                        _, nm, bs, temp, clean, filed, ext, fext = hop
-                        _, fl = filer.remake(name=nm, base=bs, temp=temp, headDirPath=os.path.join(root, "head"),
-                                             clean=clean, filed=filed, extensioned=ext, fext=fext)
-                        if fl is not None:
-                            fl.close()
-                    else:
-                        _, temp, fext, clear, reuse, clean = hop
-                        filer.reopen(temp=temp, fext=fext, clear=clear, reuse=reuse, clean=clean)
-                    r = ["ok", None]
-                except Exception as ex:
-                    r = ["exc", exn_kind(ex)]
-                observe(filer, hop, r)
-                if r[0] != "ok" and hop[0] != "remake":
+                if do_call(filer, hop):
                     return True    # the history stops at the first exception (a rejected remake() call changes nothing)
             return False
 
